@@ -127,6 +127,28 @@ def run_misc(k):
     return out, (repr(detail)[:80] if out == 'Return' else detail)
 
 
+def run_memo_history(item):
+    """one object, same x: a legal call with a real extra argument, then the same call with a complex one (f becomes complex-valued):
+    the second must raise ValueError whatever the object has seen before"""
+    vlib.use_repo()
+    import numdifftools as nd
+    cls, method, dim = item
+    if cls == 'Derivative':
+        f = lambda x, a=1.0: a * np.exp(x)
+    elif cls in ('Gradient', 'Hessdiag', 'Hessian'):
+        f = lambda x, a=1.0: a * np.exp(np.sum(x * np.arange(1, np.size(x) + 1) * 0.25))
+    else:
+        f = lambda x, a=1.0: a * np.exp(x * 0.5)
+    x = np.array([0.5, 1.25, -0.75][:dim]) if not (cls == 'Derivative' and dim == 1) else 0.5
+    obj = getattr(nd, cls)(f, method=method)
+    try:
+        obj(x, 2.0)
+    except Exception as ex:
+        return 'MachineryFirst', repr(ex)[:80]
+    out, detail = classify(lambda: obj(x, 1.0 + 0.5j))
+    return out, repr(detail)[:80]
+
+
 def run_one_short(item):
     """the number of steps the rule of (method, n, order) consumes comes from the specification (MC_Rules: nterms); a user generator
     that yields one step less must raise ValueError, one that yields exactly that many must not"""
@@ -202,6 +224,12 @@ def run(tier, rep):
             rep.violation('few-steps:numbers-on-misuse', dict(case=list(it_), got=out, detail=detail), '%s: a generator with %d steps must raise ValueError but %s (%s)' % (key, it_[3] - 1, out, detail))
         elif not it_[4] and out != 'Return':
             rep.violation('few-steps:false-alarm', dict(case=list(it_), got=out, detail=detail), '%s: a generator with exactly %d steps is valid use but raised %s (%s)' % (key, it_[3], out, detail))
+    mitems = [(cls, method, dim) for cls in ('Derivative', 'Gradient', 'Jacobian', 'Hessdiag', 'Hessian') for method in ('complex', 'multicomplex') for dim in (1, 3)]
+    for it_, (out, detail) in zip(mitems, vlib.pool_map(run_memo_history, mitems, chunksize=4)):
+        n += 1
+        if out != 'ValueError':
+            rep.violation('history:numbers-on-misuse' if out == 'Return' else 'history:%s' % out, dict(case=list(it_), got=out, detail=detail),
+                          '%s(method=%s), dim %d: after a legal call at the same x, a call whose extra argument makes f complex-valued must raise ValueError but %s (%s)' % (it_[0], it_[1], it_[2], out, detail))
     states, trans, per = vlib.merge_tlc([res, dev, rules])
     cov = dict(states=states, transitions=trans, traces_validated_against_impl=n, exhaustive=True, call_cases=len(calls), misc_cases=len(misc),
                samples=[calls[5], misc[3]], evaluations=n, distinct_nontrivial=sum(1 for r in calls if r['misuse']) + sum(1 for r in misc if r['misuse']),
